@@ -307,6 +307,54 @@ pub fn run(ctx: &Ctx) -> Report {
     });
     rep.merge(r);
 
+    // ---- the peer hangs up as soon as it has the verdict: a transport on which every operation AFTER the
+    //      last one of the undisturbed run fails, through both entry points. A login that the shim
+    //      rejects still ends with the shim's error (not with whatever a late operation reports), an
+    //      accepted one with what it ended with before; nothing else changes either
+    if !ctx.miri {
+        let n = ctx.n(600, 10_000);
+        let r = par_cases(ctx, "C11", "peer-gone-after-the-verdict", n, |rng, i, rep| {
+            let user: Vec<u8> = user_name(rng, i).into_iter().filter(|b| *b != 0).take(100).collect();
+            let reject = i % 3 != 2;
+            let (hs, _) = if rng.bool() { (wire::handshake41((rng.next() as u32 | CLIENT_PROTOCOL_41) & !CLIENT_SSL, 1 << 24, 0x21, &user, b"\0"), ()) } else { (wire::handshake320(0x0005, 1 << 20, &user, b""), ()) };
+            let mut cmds = Vec::new();
+            let mut scripts = Vec::new();
+            if rng.bool() {
+                cmds.push(Cmd::query(b"q"));
+                scripts.push(Script::Q(QProg::completed(1, 0)));
+            }
+            let mut case = Case::new(cmds, scripts);
+            case.handshake = hs;
+            case.hs_seq = if rng.chance(1, 4) { rng.below(256) as u8 } else { 1 };
+            case.auth_reject = if reject { Some(7000 + i) } else { None };
+            case.via_run_on_stream = i % 2 == 0;
+            let clean = run_case(&case);
+            let mut faulty = case.clone();
+            faulty.fault = crate::transport::Fault { eof_after: None, err_at: Some(clean.world.nops), persistent: true, err_kind: (i % 3) as u8 };
+            let obs = run_case(&faulty);
+            rep.evaluations += 1;
+            if harness_panic(&obs, rep) || harness_panic(&clean, rep) {
+                return;
+            }
+            let entry = if case.via_run_on_stream { "run_on_stream" } else { "run_on" };
+            rep.counters.class(format!("peer gone after the verdict: {}, {}", if reject { "rejected" } else { "accepted" }, entry));
+            let d = || J::obj().set("user", show(&user)).set("shim", if reject { "rejects" } else { "accepts" }).set("entry_point", entry).set("transport", format!("every operation from #{} on fails", clean.world.nops)).set("undisturbed_outcome", clean.outcome.describe()).set("outcome", obs.outcome.describe()).set("faulted_operation", format!("{:?}", obs.world.fault_op));
+            if i < 2 {
+                rep.sample(d());
+            }
+            if reject && obs.outcome != Outcome::Token(7000 + i) {
+                rep.violations.push(viol("C11", "C11 reject-result-not-shim-error".into(), format!("the shim rejected the login with its error {}, the peer left after reading the verdict, and {} returned {} (a late {:?} failed)", 7000 + i, entry, obs.outcome.describe(), obs.world.fault_op), d()));
+                return;
+            }
+            if obs.outcome != clean.outcome || obs.output() != clean.output() || obs.log.cbs.len() != clean.log.cbs.len() {
+                rep.violations.push(viol("C11", "C11 late-fault-changes-the-connection-phase".into(), format!("a transport that fails only after the last operation changed the outcome ({} instead of {}), the bytes sent or the callbacks", obs.outcome.describe(), clean.outcome.describe()), d()));
+                return;
+            }
+            rep.counters.inc("verdicts_kept_although_the_peer_was_gone");
+        });
+        rep.merge(r);
+    }
+
     // ---- one transient transport error (Interrupted / WouldBlock / TimedOut) somewhere in the
     //      connection phase or behind it, with the handshake response arriving in pieces: whether the
     //      server gives up or carries on, after_authentication sees the client's user name or is not
@@ -501,7 +549,7 @@ pub fn run(ctx: &Ctx) -> Report {
             }
             let variant = if i % 4 == 0 { 0 } else { rng.next() | 1 };
             let seqs = if rng.chance(1, 4) { (rng.below(250) as u8, rng.below(250) as u8) } else { (1, 2) };
-            let c = super::c18::TlsCase { tls13: rng.bool(), with_cert: false, server_mode: 0, user: user.clone(), cmds, scripts, first_cut: if rng.bool() { rng.range(1, 80) as usize } else { 0 }, cycle: if rng.bool() { vec![] } else { vec![rng.range(1, 300) as usize] }, write_limit: usize::MAX, close_notify: true, raw_limit: None, hs_variant: variant, app_override: None, seqs, auth_reject: if reject { Some(4243) } else { None }, record_per_command: rng.bool(), write_fault: None, buffer_writes: rng.bool() };
+            let c = super::c18::TlsCase { tls13: rng.bool(), with_cert: false, server_mode: 0, user: user.clone(), cmds, scripts, first_cut: if rng.bool() { rng.range(1, 80) as usize } else { 0 }, cycle: if rng.bool() { vec![] } else { vec![rng.range(1, 300) as usize] }, write_limit: usize::MAX, close_notify: true, raw_limit: None, hs_variant: variant, app_override: None, seqs, auth_reject: if reject { Some(4243) } else { None }, record_per_command: rng.bool(), write_fault: None, buffer_writes: rng.bool(), eager_close: false };
             // a quarter of the connections meet one transient write error (EINTR) on one of the server's
             // writes. Either the server gives up with that I/O error (C19's business), or everything
             // this property says holds as if nothing had happened - in particular a rejection is not
